@@ -37,6 +37,17 @@ type c14E2ERule struct {
 type c14E2ECases struct {
 	Seed   int64               `json:"seed"`
 	Events map[string][]string `json:"events"`
+	Fresh  []string            `json:"fresh"` // sets whose rules get a pipeline of their own (see the fd half)
+}
+
+// c14E2EKey is the spelling-independent form of an event (a selector may have unescaped strings in place)
+func c14E2EKey(text string) string {
+	var v interface{}
+	if err := json.Unmarshal([]byte(text), &v); err != nil {
+		return "!" + text
+	}
+	b, _ := json.Marshal(v)
+	return string(b)
 }
 
 type c14E2EOut struct {
@@ -69,7 +80,7 @@ func (p *c14E2EPlugin) Do(e *pipeline.Event) pipeline.ActionResult {
 	c14E2EMu.Lock()
 	if c14E2ESplitIdx != nil {
 		if e.IsChildKind() {
-			if j, ok := c14E2ESplitIdx[e.Root.EncodeToString()]; ok && p.index-1 < len(c14E2EHits) {
+			if j, ok := c14E2ESplitIdx[c14E2EKey(e.Root.EncodeToString())]; ok && p.index-1 < len(c14E2EHits) {
 				c14E2EHits[p.index-1][j]++
 			}
 		}
@@ -191,7 +202,7 @@ func c14E2ERunChunk(rules []*c14E2ERule, evs []string, reps int, busy, split boo
 				c14E2EMu.Unlock()
 				return nil, fmt.Errorf("harness: %w", derr)
 			}
-			key := r.EncodeToString()
+			key := c14E2EKey(r.EncodeToString())
 			insaneJSON.Release(r)
 			if _, dup := c14E2ESplitIdx[key]; dup {
 				c14E2EMu.Unlock()
@@ -265,6 +276,10 @@ func TestVerifC14E2E(t *testing.T) {
 		t.Fatal(err)
 	}
 	par := os.Getenv("VERIF_C14_E2E_PAR") != ""
+	isFresh := map[string]bool{}
+	for _, k := range cs.Fresh {
+		isFresh[k] = true
+	}
 	fd.DefaultPluginRegistry.RegisterAction(&pipeline.PluginStaticInfo{Type: "verif_c14", Factory: c14E2EFactory})
 	fd.DefaultPluginRegistry.RegisterAction(&pipeline.PluginStaticInfo{Type: "verif_c14_hold", Factory: c14E2EHolderFactory})
 
@@ -330,7 +345,7 @@ func TestVerifC14E2E(t *testing.T) {
 		if _, ok := cs.Events[r.Set]; !ok {
 			t.Fatalf("unknown event set %q", r.Set)
 		}
-		if len(chunk) > 0 && (chunk[0].Set != r.Set || len(chunk) >= 200) {
+		if len(chunk) > 0 && (chunk[0].Set != r.Set || len(chunk) >= 200 || (isFresh[chunk[0].Set] && !par)) {
 			flush()
 		}
 		chunk = append(chunk, r)
